@@ -2,12 +2,14 @@
 C09 — all front ends report the same findings; the language server publishes the newest
 version.
 
-This file currently holds the **LSP histories** half ("After any sequence of
-open/change/close notifications, the diagnostics last published for a document are those of
-the highest-version text received").  The "all front ends report the same findings" half is
-added in its own section below (model `Model/Frontends`), by its own builder.
+This file holds the **LSP histories** half ("After any sequence of open/change/close
+notifications, the diagnostics last published for a document are those of the
+highest-version text received").  The "all front ends report the same findings" half lives in
+`Props/C09a.lean` (model `Model/Frontends`), by its own builder.
 
-Model: `Model/Lsp.lean`; specification: `Spec/LspLatest.lean`; lemmas: `Lemmas/Lsp.lean`.
+Model: `Model/Lsp.lean` (the server after fix 72c38ee: last content change, empty change list
+ignored, handlers dispatched one after the other); specification: `Spec/LspLatest.lean`;
+lemmas: `Lemmas/Lsp.lean`.
 -/
 import AstGrepVerif.Model.Lsp
 import AstGrepVerif.Spec.LspLatest
@@ -27,80 +29,36 @@ open AGV AGV.Lsp AGV.Spec.Lsp
 workspace (both are constants of the uri) -/
 def Accepted (cfg : Config) (u : Uri) : Prop := cfg.langKnown u = true ∧ cfg.outside u = false
 
-/-- **lsp_latest_code** — the statement as the code behaves, for every history and every uri.
+/-- **lsp_latest** — for **every** history and every uri the server can serve.
 Cut the history at the last `didOpen u` (`h = pre ++ open u v t :: post`, no `didOpen u` in
-`post`).  The *session* is that open followed by the `didChange u` messages up to the first
-`didClose u`, each with the text of its **first** content change.  Then the last
-`publishDiagnostics` for `u` in the whole run carries the version and text of the session's
-greatest version, the latest among equals (an equal version replaces); the map holds exactly
-that entry while `u` is open, and nothing once it is closed.  No notification crashes the
-server as long as no `didChange` has an empty `contentChanges`. -/
-theorem lsp_latest_code (cfg : Config) (u : Uri) (hacc : Accepted cfg u)
+`post`).  The *session* is that open followed by the texts received by `didChange u` up to the
+first `didClose u` (the text of a `didChange` is its last content change; one without content
+changes carries none).  Then the last `publishDiagnostics` for `u` in the whole run carries
+the version and text of the session's greatest version, the latest among equals
+(`IsLatestMax`, a declarative specification); the map holds exactly that entry while `u` is
+open, and nothing once it is closed. -/
+theorem lsp_latest (cfg : Config) (u : Uri) (hacc : Accepted cfg u)
     (pre post : List Op) (v : Version) (t : Text)
-    (hlast : ∀ op ∈ post, isOpenOf u op = false)
-    (hne : NoEmptyChange (pre ++ Op.open u v t :: post)) :
+    (hlast : ∀ op ∈ post, isOpenOf u op = false) :
     ∃ m, lastPub u (run cfg (pre ++ Op.open u v t :: post)).pubs = some m ∧
-      IsLatestMax ((v, t) :: changesUntilClose headText u post) m ∧
-      (run cfg (pre ++ Op.open u v t :: post)).crashed = false ∧
+      IsLatestMax ((v, t) :: changesUntilClose u post) m ∧
       lookup (run cfg (pre ++ Op.open u v t :: post)).state u
         = (if closedIn u post then none else some m) := by
   unfold run
-  have hpre : (runFrom cfg [] [] pre).crashed = false :=
-    runFrom_not_crashed cfg pre [] [] hne.append_left
-  rw [runFrom_append cfg pre _ [] [] hpre]
+  rw [runFrom_append cfg pre _ [] []]
   generalize (runFrom cfg [] [] pre).state = s0
   generalize (runFrom cfg [] [] pre).pubs = acc0
-  have hstep : step cfg s0 (Op.open u v t) = .ok (insert s0 u v t, [⟨u, v, t⟩]) := by
+  have hstep : step cfg s0 (Op.open u v t) = (insert s0 u v t, [⟨u, v, t⟩]) := by
     simp [step, onOpen, hacc.1, hacc.2]
   simp only [runFrom, hstep]
-  have hne' : NoEmptyChange post := (hne.append_right).tail
   have := session_inv cfg u hacc.1 post (insert s0 u v t) (acc0 ++ [⟨u, v, t⟩]) [(v, t)] (v, t)
-    (lookup_insert_self s0 u v t) (lastPub_append_self u acc0 v t) (isLatestMax_single _) hlast hne'
+    (lookup_insert_self s0 u v t) (lastPub_append_self u acc0 v t) (isLatestMax_single _) hlast
   simpa using this
-
-/-- every `didChange` carries exactly one content change (what clients send under
-`TextDocumentSyncKind.Full`, the only mode the server announces) -/
-def SingleChanges (h : List Op) : Prop := ∀ u v ts, Op.change u v ts ∈ h → ∃ t, ts = [t]
-
-theorem SingleChanges.noEmpty {h : List Op} (hs : SingleChanges h) : NoEmptyChange h := by
-  intro u v hm
-  obtain ⟨t, ht⟩ := hs u v [] hm
-  cases ht
-
-theorem changesUntilClose_single (u : Uri) : ∀ (post : List Op), SingleChanges post →
-    changesUntilClose headText u post = changesUntilClose changeText u post
-  | [], _ => rfl
-  | op :: ops, hs => by
-    have hs' : SingleChanges ops := fun u v ts hm => hs u v ts (List.mem_cons_of_mem _ hm)
-    have ih := changesUntilClose_single u ops hs'
-    cases op with
-    | «open» u' v t => simpa [changesUntilClose] using ih
-    | close u' => by_cases e : u' = u <;> simp [changesUntilClose, e, ih]
-    | change u' v ts =>
-      obtain ⟨t, rfl⟩ := hs u' v ts (by simp)
-      by_cases e : u' = u <;> simp [changesUntilClose, e, ih, headText, changeText]
-
-/-- **lsp_latest** — against the specification (`Spec/LspLatest`): for every history whose
-`didChange`s carry one content change, and every accepted uri that has been opened: the
-diagnostics last published for the document are those of the highest-version text received
-*since the document was last opened* (until it was closed), the latest among equal versions. -/
-theorem lsp_latest (cfg : Config) (u : Uri) (hacc : Accepted cfg u)
-    (pre post : List Op) (v : Version) (t : Text)
-    (hlast : ∀ op ∈ post, isOpenOf u op = false)
-    (hs : SingleChanges (pre ++ Op.open u v t :: post)) :
-    ∃ m, lastPub u (run cfg (pre ++ Op.open u v t :: post)).pubs = some m ∧
-      IsLatestMax ((v, t) :: changesUntilClose changeText u post) m ∧
-      (run cfg (pre ++ Op.open u v t :: post)).crashed = false := by
-  obtain ⟨m, h1, h2, h3, _⟩ := lsp_latest_code cfg u hacc pre post v t hlast hs.noEmpty
-  have hsp : SingleChanges post := fun u' v' ts hm =>
-    hs u' v' ts (List.mem_append_right _ (List.mem_cons_of_mem _ hm))
-  rw [changesUntilClose_single u post hsp] at h2
-  exact ⟨m, h1, h2, h3⟩
 
 theorem received_eq_session (u : Uri) (v : Version) (t : Text) :
     ∀ (pre : List Op), (∀ op ∈ pre, op.uri ≠ u) →
       ∀ (post : List Op), (∀ op ∈ post, isOpenOf u op = false) → closedIn u post = false →
-      received u (pre ++ Op.open u v t :: post) = (v, t) :: changesUntilClose changeText u post
+      received u (pre ++ Op.open u v t :: post) = (v, t) :: changesUntilClose u post
   | op :: pre, hpre, post, hpost, hcl => by
     have h1 : op.uri ≠ u := hpre op (by simp)
     have ih := received_eq_session u v t pre (fun o h => hpre o (List.mem_cons_of_mem _ h)) post hpost hcl
@@ -122,7 +80,9 @@ theorem received_eq_session (u : Uri) (v : Version) (t : Text) :
         simp [isOpenOf] at this
         simp [received, changesUntilClose, this, ih hpost' hcl']
       | change u' v' ts =>
-        by_cases e : u' = u <;> simp [received, changesUntilClose, e, ih hpost' hcl']
+        by_cases e : u' = u
+        · cases hts : changeText ts <;> simp [received, changesUntilClose, e, hts, ih hpost' hcl']
+        · simp [received, changesUntilClose, e, ih hpost' hcl']
       | close u' =>
         have : u' ≠ u := by
           simp only [closedIn, List.any_cons, Bool.or_eq_false_iff, isCloseOf, decide_eq_false_iff_not] at hcl
@@ -131,16 +91,15 @@ theorem received_eq_session (u : Uri) (v : Version) (t : Text) :
 
 /-- **lsp_latest_literal_partial** — the property *as literally worded* ("the highest-version
 text received", over the whole history) holds for histories that use the document the way
-the protocol prescribes: opened once, never closed, one content change per `didChange`
-(versions may arrive in any order, with repetitions). -/
+the protocol prescribes: opened once, never closed (versions may arrive in any order, with
+repetitions; any number of content changes per `didChange`). -/
 theorem lsp_latest_literal_partial (cfg : Config) (u : Uri) (hacc : Accepted cfg u)
     (pre post : List Op) (v : Version) (t : Text)
     (hpre : ∀ op ∈ pre, op.uri ≠ u)
-    (hlast : ∀ op ∈ post, isOpenOf u op = false) (hopen : closedIn u post = false)
-    (hs : SingleChanges (pre ++ Op.open u v t :: post)) :
+    (hlast : ∀ op ∈ post, isOpenOf u op = false) (hopen : closedIn u post = false) :
     ∃ m, lastPub u (run cfg (pre ++ Op.open u v t :: post)).pubs = some m ∧
       IsLatestMax (received u (pre ++ Op.open u v t :: post)) m := by
-  obtain ⟨m, h1, h2, _⟩ := lsp_latest cfg u hacc pre post v t hlast hs
+  obtain ⟨m, h1, h2, _⟩ := lsp_latest cfg u hacc pre post v t hlast
   rw [received_eq_session u v t pre hpre post hlast hopen]
   exact ⟨m, h1, h2⟩
 
@@ -148,65 +107,124 @@ theorem lsp_latest_literal_partial (cfg : Config) (u : Uri) (hacc : Accepted cfg
 def LiteralClaim (cfg : Config) (h : List Op) (u : Uri) : Prop :=
   ∃ m, lastPub u (run cfg h).pubs = some m ∧ IsLatestMax (received u h) m
 
+theorem run_snoc (cfg : Config) (h : List Op) (op : Op) :
+    run cfg (h ++ [op]) =
+      ⟨(step cfg (run cfg h).state op).1, (run cfg h).pubs ++ (step cfg (run cfg h).state op).2⟩ := by
+  unfold run
+  rw [runFrom_append]
+  rfl
+
 /-- **lsp_stale_ignored** — a `didChange` whose version is smaller than the session's current
 maximum changes nothing: no publish, same map. -/
 theorem lsp_stale_ignored (cfg : Config) (u : Uri) (hacc : Accepted cfg u)
     (pre post : List Op) (v : Version) (t : Text)
     (hlast : ∀ op ∈ post, isOpenOf u op = false) (hopen : closedIn u post = false)
-    (hne : NoEmptyChange (pre ++ Op.open u v t :: post))
-    (m : Version × Text) (hm : IsLatestMax ((v, t) :: changesUntilClose headText u post) m)
-    (v' : Version) (ts : List Text) (hts : ts ≠ []) (hstale : v' < m.1) :
+    (m : Version × Text) (hm : IsLatestMax ((v, t) :: changesUntilClose u post) m)
+    (v' : Version) (ts : List Text) (hstale : v' < m.1) :
     run cfg ((pre ++ Op.open u v t :: post) ++ [Op.change u v' ts])
       = run cfg (pre ++ Op.open u v t :: post) := by
-  obtain ⟨m', _, hmax, hcr, hlk⟩ := lsp_latest_code cfg u hacc pre post v t hlast hne
+  obtain ⟨m', _, hmax, hlk⟩ := lsp_latest cfg u hacc pre post v t hlast
   have hmm : m' = m := IsLatestMax.unique hmax hm
   subst hmm
   rw [hopen] at hlk
-  unfold run at *
-  rw [runFrom_append cfg _ _ [] [] hcr]
-  generalize runFrom cfg [] [] (pre ++ Op.open u v t :: post) = R at *
-  cases ts with
-  | nil => exact absurd rfl hts
-  | cons t0 ts' =>
-    obtain ⟨s, acc, cr⟩ := R
-    simp only at hcr hlk
-    subst hcr
-    have hgt : m'.1 > v' := hstale
-    simp [runFrom, step, onChange, hacc.1, hlk, hgt]
+  rw [run_snoc]
+  generalize run cfg (pre ++ Op.open u v t :: post) = R at *
+  obtain ⟨s, acc⟩ := R
+  simp only at hlk
+  have hgt : m'.1 > v' := hstale
+  cases hts : ts.getLast? <;> simp [step, onChange, hts, hacc.1, hlk, hgt]
+
+/-- **lsp_empty_change_ignored** — a `didChange` without content changes changes nothing,
+whatever the history, the uri and the version (formerly: index panic, server gone). -/
+theorem lsp_empty_change_ignored (cfg : Config) (h : List Op) (u : Uri) (v : Version) :
+    run cfg (h ++ [Op.change u v []]) = run cfg h := by
+  rw [run_snoc]
+  simp [step, onChange]
+
+/-- **lsp_multi_change_uses_last** — of several content changes the last one is the document
+(formerly: element 0 was used). -/
+theorem lsp_multi_change_uses_last (cfg : Config) (u : Uri) (hacc : Accepted cfg u)
+    (v v' : Version) (t t' : Text) (ts : List Text) (hv : v ≤ v') :
+    lastPub u (run cfg [Op.open u v t, Op.change u v' (ts ++ [t'])]).pubs = some (v', t') := by
+  have hng : ¬ v > v' := Int.not_lt.mpr hv
+  simp [run, runFrom, step, onOpen, onChange, hacc.1, hacc.2, lookup_insert_self, hng]
+  exact lastPub_append_self u [⟨u, v, t⟩] v' t'
 
 /-- **lsp_equal_version_replaces** — the comparison is strict: an equal version is accepted -/
 theorem lsp_equal_version_replaces (cfg : Config) (u : Uri) (hacc : Accepted cfg u)
     (v : Version) (t t' : Text) :
-    lastPub u (run cfg [Op.open u v t, Op.change u v [t']]).pubs = some (v, t') := by
-  simp [run, runFrom, step, onOpen, onChange, hacc.1, hacc.2, lookup_insert_self, lastPub,
-    List.filter_cons, List.getLast?]
+    lastPub u (run cfg [Op.open u v t, Op.change u v [t']]).pubs = some (v, t') :=
+  lsp_multi_change_uses_last cfg u hacc v v t t' [] (Int.le_refl v)
 
 /-- **lsp_closed_nothing_stored** — after `didClose u` (with no later `didOpen u`) the map
 has no entry for `u`, whatever else happened; and nothing more is published for `u`. -/
 theorem lsp_closed_nothing_stored (cfg : Config) (u : Uri) (pre post : List Op)
-    (hlast : ∀ op ∈ post, isOpenOf u op = false)
-    (hne : NoEmptyChange (pre ++ Op.close u :: post)) :
+    (hlast : ∀ op ∈ post, isOpenOf u op = false) :
     lookup (run cfg (pre ++ Op.close u :: post)).state u = none ∧
     lastPub u (run cfg (pre ++ Op.close u :: post)).pubs = lastPub u (run cfg pre).pubs := by
   unfold run
-  have hpre : (runFrom cfg [] [] pre).crashed = false :=
-    runFrom_not_crashed cfg pre [] [] hne.append_left
-  rw [runFrom_append cfg pre _ [] [] hpre]
+  rw [runFrom_append cfg pre _ [] []]
   generalize (runFrom cfg [] [] pre).state = s0
   generalize (runFrom cfg [] [] pre).pubs = acc0
   simp only [runFrom, step, onClose, List.append_nil]
-  have := closed_inv cfg u post (remove s0 u) acc0 (lookup_remove_self s0 u) hlast (hne.append_right).tail
-  exact ⟨this.2.2, this.1⟩
+  have := closed_inv cfg u post (remove s0 u) acc0 (lookup_remove_self s0 u) hlast
+  exact ⟨this.2, this.1⟩
 
-/-- **lsp_never_opened_silent** — a uri that was never opened (or cannot be served: unknown
-language, outside the workspace) gets no publish and no entry, whatever is sent for it. -/
+/-- **lsp_never_opened_silent** — a uri that was never opened gets no publish and no entry,
+whatever is sent for it. -/
 theorem lsp_never_opened_silent (cfg : Config) (u : Uri) (h : List Op)
-    (hno : ∀ op ∈ h, isOpenOf u op = false) (hne : NoEmptyChange h) :
-    lastPub u (run cfg h).pubs = none ∧ lookup (run cfg h).state u = none := by
-  have := closed_inv cfg u h [] [] rfl hno hne
-  exact ⟨this.1, this.2.2⟩
+    (hno : ∀ op ∈ h, isOpenOf u op = false) :
+    lastPub u (run cfg h).pubs = none ∧ lookup (run cfg h).state u = none :=
+  closed_inv cfg u h [] [] rfl hno
 
-/-! ### Where the code departs from the literal wording -/
+/-- **lsp_unserved_silent** — a uri the server cannot serve (unknown language, or outside the
+workspace) gets no publish and no entry, even when it is opened. -/
+theorem lsp_unserved_silent (cfg : Config) (u : Uri)
+    (hun : cfg.langKnown u = false ∨ cfg.outside u = true) :
+    ∀ (h : List Op) (s : State) (acc : List Publish), lookup s u = none →
+      lastPub u (runFrom cfg s acc h).pubs = lastPub u acc ∧
+      lookup (runFrom cfg s acc h).state u = none
+  | [], s, acc, hl => ⟨rfl, hl⟩
+  | op :: ops, s, acc, hl => by
+    simp only [runFrom]
+    by_cases hu : op.uri = u
+    · have hs : (step cfg s op).1 = s ∨ (step cfg s op).1 = remove s u := by
+        cases op with
+        | «open» u' v t =>
+          simp only [Op.uri] at hu; subst hu
+          rcases hun with h1 | h1 <;> simp [step, onOpen, h1]
+        | change u' v ts =>
+          simp only [Op.uri] at hu; subst hu
+          cases hts : ts.getLast? <;> by_cases hk : cfg.langKnown u' = true <;>
+            simp [step, onChange, hts, hk, hl]
+        | close u' =>
+          simp only [Op.uri] at hu; subst hu
+          exact Or.inr rfl
+      have hp : (step cfg s op).2 = [] := by
+        cases op with
+        | «open» u' v t =>
+          simp only [Op.uri] at hu; subst hu
+          rcases hun with h1 | h1 <;> simp [step, onOpen, h1]
+        | change u' v ts =>
+          simp only [Op.uri] at hu; subst hu
+          cases hts : ts.getLast? <;> by_cases hk : cfg.langKnown u' = true <;>
+            simp [step, onChange, hts, hk, hl]
+        | close u' => rfl
+      have hl' : lookup (step cfg s op).1 u = none := by
+        rcases hs with e | e <;> rw [e]
+        · exact hl
+        · exact lookup_remove_self s u
+      rw [hp, List.append_nil]
+      exact lsp_unserved_silent cfg u hun ops _ acc hl'
+    · have hl' : lookup (step cfg s op).1 u = none := by
+        rw [step_lookup_other cfg s op u hu]; exact hl
+      have hpu : ∀ p ∈ (step cfg s op).2, p.uri ≠ u := fun p hp => by
+        rw [step_pubs_uri cfg s op p hp]; exact hu
+      have ih := lsp_unserved_silent cfg u hun ops _ (acc ++ (step cfg s op).2) hl'
+      rw [lastPub_append_other u acc _ hpu] at ih
+      exact ih
+
+/-! ### Where the code departs from the literal wording (documented readings) -/
 
 def cfgAll : Config := { langKnown := fun _ => true, outside := fun _ => false }
 
@@ -236,53 +254,30 @@ theorem lsp_literal_change_after_close_counterexample :
   rw [e] at h1; cases h1
   exact not_latest_of_lt (p := (2, [0x62])) (by simp [received, changeText]) (by decide) h2
 
-/-- Several content changes in one `didChange`: under full sync the resulting document is the
-**last** element's text; the server reads element 0. -/
-theorem lsp_multi_change_counterexample :
-    ¬ LiteralClaim cfgAll [Op.open 0 1 [0x61], Op.change 0 2 [[0x62], [0x63]]] 0 := by
-  rintro ⟨m, h1, h2⟩
-  have e : lastPub 0 (run cfgAll [Op.open 0 1 [0x61], Op.change 0 2 [[0x62], [0x63]]]).pubs
-      = some (2, [0x62]) := by decide
-  rw [e] at h1; cases h1
-  have hmem := IsLatestMax.mem h2
-  simp [received, changeText] at hmem
-
-/-- An empty `contentChanges` array makes `on_change` index out of bounds: the handler panics,
-`tower-lsp` does not catch it, the server stops serving — every later notification
-(here a perfectly good `didChange` to version 3) is lost. -/
-theorem lsp_empty_change_crashes :
-    (run cfgAll [Op.open 0 1 [0x61], Op.change 0 2 [], Op.change 0 3 [[0x62]]]).crashed = true ∧
-    lastPub 0 (run cfgAll [Op.open 0 1 [0x61], Op.change 0 2 [], Op.change 0 3 [[0x62]]]).pubs
-      = some (1, [0x61]) := by decide
-
 /-! ### Non-vacuity -/
 
 /-- a history with staleness, an equal version, another uri interleaved, a close and a
-re-open: the hypotheses of `lsp_latest` hold and the conclusion is the expected entry -/
+re-open, a multi-element and an empty `didChange`: the hypotheses of `lsp_latest` hold and
+the conclusion is the expected entry -/
 def exHistory : List Op :=
   [Op.open 0 7 [0x61], Op.close 0, Op.open 1 1 [0x78]] ++
   Op.open 0 2 [0x62] ::
-  [Op.change 0 5 [[0x63]], Op.change 1 2 [[0x79]], Op.change 0 3 [[0x64]], Op.change 0 5 [[0x65]],
-   Op.change 0 4 [[0x66]]]
+  [Op.change 0 5 [[0x63]], Op.change 1 2 [[0x79]], Op.change 0 3 [[0x64]],
+   Op.change 0 5 [[0x67], [0x65]], Op.change 0 9 [], Op.change 0 4 [[0x66]]]
 
 example : lastPub 0 (run cfgAll exHistory).pubs = some (5, [0x65]) := by decide
 example : lookup (run cfgAll exHistory).state 0 = some (5, [0x65]) := by decide
 example : (run cfgAll exHistory).pubs.length = 6 := by decide
 
 example : ∃ m, lastPub 0 (run cfgAll exHistory).pubs = some m ∧
-    IsLatestMax ((2, [0x62]) :: changesUntilClose changeText 0
+    IsLatestMax ((2, [0x62]) :: changesUntilClose 0
       [Op.change 0 5 [[0x63]], Op.change 1 2 [[0x79]], Op.change 0 3 [[0x64]],
-       Op.change 0 5 [[0x65]], Op.change 0 4 [[0x66]]]) m ∧
-    (run cfgAll exHistory).crashed = false :=
+       Op.change 0 5 [[0x67], [0x65]], Op.change 0 9 [], Op.change 0 4 [[0x66]]]) m ∧
+    lookup (run cfgAll exHistory).state 0 = some m :=
   lsp_latest cfgAll 0 ⟨rfl, rfl⟩ [Op.open 0 7 [0x61], Op.close 0, Op.open 1 1 [0x78]]
     [Op.change 0 5 [[0x63]], Op.change 1 2 [[0x79]], Op.change 0 3 [[0x64]],
-     Op.change 0 5 [[0x65]], Op.change 0 4 [[0x66]]] 2 [0x62]
+     Op.change 0 5 [[0x67], [0x65]], Op.change 0 9 [], Op.change 0 4 [[0x66]]] 2 [0x62]
     (by decide)
-    (by
-      intro u v ts hm
-      simp at hm
-      rcases hm with ⟨_, _, rfl⟩ | ⟨_, _, rfl⟩ | ⟨_, _, rfl⟩ | ⟨_, _, rfl⟩ | ⟨_, _, rfl⟩ <;>
-        exact ⟨_, rfl⟩)
 
 /-- instance of `lsp_stale_ignored`: version 4 after 5 leaves the run unchanged -/
 example : run cfgAll ([Op.open 0 2 [0x62], Op.change 0 5 [[0x63]]] ++ [Op.change 0 4 [[0x66]]])
